@@ -16,6 +16,15 @@ Definition plain_ctx (s : st) (c : N) : Prop := exists cx, nm_get c (s_ctxs s) =
 Definition protected_cell (s : st) (cl : cell) : Prop :=
   c_const cl = true /\ prim_kind (dk (c_type cl)) = true /\ plain_ctx s (c_owner cl).
 
+(* the name of a user type carried by a payload, and its agreement with a declared type *)
+Definition pname (p : payload) : option str := match p with PEnum tn _ | PPtr tn _ _ | PRec tn _ => Some tn | _ => None end.
+Definition named_ok (p : payload) (ty : dtype) : Prop := forall tn, pname p = Some tn -> dname ty = Some tn.
+Definition named_kind (k : dkind) : bool := match k with KEnum | KPtr | KRec => true | _ => false end.
+Lemma pname_kind p tn : pname p = Some tn -> named_kind (payload_kind p) = true.
+Proof. destruct p; cbn; intros H; try discriminate H; reflexivity. Qed.
+Lemma kind_pname p : named_kind (payload_kind p) = true -> exists tn, pname p = Some tn.
+Proof. destruct p; cbn; intros H; try discriminate H; eauto. Qed.
+
 (* ------------------------------------------------------------------ the heap invariant *)
 Record Inv (s : st) : Prop := mkInv {
   i_hb : hb s;
@@ -24,7 +33,7 @@ Record Inv (s : st) : Prop := mkInv {
               exists cl, nm_get id (s_cells s) = Some cl /\ rec_ctx s (c_owner cl);
   (* array elements are never constants *)
   i_elems : forall a ar e, nm_get a (s_arrs s) = Some ar -> In e (a_elems ar) ->
-            exists cl, nm_get e (s_cells s) = Some cl /\ c_const cl = false;
+            exists cl, nm_get e (s_cells s) = Some cl /\ c_const cl = false /\ c_type cl = a_type ar;
   (* a record value in a cell refers to a record context *)
   i_recval : forall id cl tn c, nm_get id (s_cells s) = Some cl -> c_val cl = PRec tn c -> rec_ctx s c;
   (* so does a record value kept as a function's return value *)
@@ -32,7 +41,10 @@ Record Inv (s : st) : Prop := mkInv {
   (* the payload of a cell is of the kind its declared type says: no value is ever reinterpreted as another type *)
   i_kind : forall id cl, nm_get id (s_cells s) = Some cl -> payload_kind (c_val cl) = dk (c_type cl);
   (* and a kept return value is of the kind its own type says *)
-  i_retkind : forall id cx r p, nm_get id (s_ctxs s) = Some cx -> x_retval cx = Some r -> r_val r = Some p -> payload_kind p = dk (r_type r) }.
+  i_retkind : forall id cx r p, nm_get id (s_ctxs s) = Some cx -> x_retval cx = Some r -> r_val r = Some p -> payload_kind p = dk (r_type r);
+  (* and of the user type it says: an enumerated, pointer or record value carries the name of the declared type *)
+  i_name : forall id cl, nm_get id (s_cells s) = Some cl -> named_ok (c_val cl) (c_type cl);
+  i_retname : forall id cx r p, nm_get id (s_ctxs s) = Some cx -> x_retval cx = Some r -> r_val r = Some p -> named_ok p (r_type r) }.
 
 (* ------------------------------------------------------------------ what every computation keeps *)
 Definition same_ctx_kind (c c' : ctx) : Prop := x_isrec c' = x_isrec c.
@@ -154,7 +166,7 @@ Lemma ro_get_ctx id : ro (get_ctx id). Proof. intros s. unfold get_ctx. destruct
 Definition heap_same (s s' : st) : Prop := s_next s' = s_next s /\ s_cells s' = s_cells s /\ s_arrs s' = s_arrs s /\ s_ctxs s' = s_ctxs s.
 Lemma Inv_heap_same s s' : heap_same s s' -> Inv s -> Inv s'.
 Proof.
-  intros [H1 [H2 [H3 H4]]] [A B C D E F G]. constructor; unfold hb, rec_ctx in *; rewrite ?H1, ?H2, ?H3, ?H4; auto.
+  intros [H1 [H2 [H3 H4]]] [A B C D E F G IN IRN]. constructor; unfold hb, rec_ctx in *; rewrite ?H1, ?H2, ?H3, ?H4; auto.
 Qed.
 Lemma K_heap_same s s' : heap_same s s' -> K s s'.
 Proof.
@@ -176,13 +188,15 @@ Proof. intros H tn c E. exfalso. eapply H; eauto. Qed.
 Lemma rec_ctx_kind s c : rec_ctx s c <-> ctxkind c true s.
 Proof. unfold rec_ctx, ctxkind. tauto. Qed.
 (* the value is of the kind the cell's declared type says *)
-Definition fits (id : N) (v : payload) (s : st) : Prop := exists cl, nm_get id (s_cells s) = Some cl /\ payload_kind v = dk (c_type cl).
+Definition fits (id : N) (v : payload) (s : st) : Prop := exists cl, nm_get id (s_cells s) = Some cl /\ payload_kind v = dk (c_type cl) /\ named_ok v (c_type cl).
 Lemma stable_fits id v : stable (fits id v).
-Proof. intros s s' H [cl [E F]]. destruct (k_meta _ _ H id cl E) as [cl' [E' [_ [M2 _]]]]. exists cl'. split; [exact E'|congruence]. Qed.
-Lemma cellmeta_fits id cl v s : cellmeta id cl s -> payload_kind v = dk (c_type cl) -> fits id v s.
-Proof. intros [c' [E [_ [M2 _]]]] H. exists c'. split; [exact E|congruence]. Qed.
+Proof. intros s s' H [cl [E [F G]]]. destruct (k_meta _ _ H id cl E) as [cl' [E' [_ [M2 _]]]]. exists cl'. split; [exact E'|]. rewrite M2. split; assumption. Qed.
+Lemma cellmeta_fits id cl v s : cellmeta id cl s -> payload_kind v = dk (c_type cl) -> named_ok v (c_type cl) -> fits id v s.
+Proof. intros [c' [E [_ [M2 _]]]] H G. exists c'. split; [exact E|]. rewrite M2. split; assumption. Qed.
+Lemma named_ok_prim v ty : pname v = None -> named_ok v ty.
+Proof. intros H tn E. congruence. Qed.
 (* a result: a record value refers to a record context, and the value is of the kind the result's type says *)
-Definition resok (r : result) (s : st) : Prop := forall p, r_val r = Some p -> valok p s /\ payload_kind p = dk (r_type r).
+Definition resok (r : result) (s : st) : Prop := forall p, r_val r = Some p -> valok p s /\ payload_kind p = dk (r_type r) /\ named_ok p (r_type r).
 Lemma stable_resok r : stable (resok r).
 Proof. intros s s' H R p E. destruct (R p E) as [A B]. split; [eapply stable_valok; eauto|exact B]. Qed.
 Definition nonconst (id : N) (s : st) : Prop := exists cl, nm_get id (s_cells s) = Some cl /\ c_const cl = false.
@@ -195,17 +209,28 @@ Proof. intros H s s' HK HF. eapply Forall_impl; [|exact HF]. intros x Hx. eapply
 
 (* reading a cell: its name, type, flag and owner are known from now on; a record value in it refers to a record context *)
 Lemma tr_get_cell (P : st -> Prop) id :
-  tr P (get_cell id) (fun cl s => cellmeta id cl s /\ valok (c_val cl) s /\ payload_kind (c_val cl) = dk (c_type cl)).
+  tr P (get_cell id) (fun cl s => cellmeta id cl s /\ valok (c_val cl) s /\ payload_kind (c_val cl) = dk (c_type cl) /\ named_ok (c_val cl) (c_type cl)).
 Proof.
   intros s HI HP. unfold get_cell. destruct (nm_get id (s_cells s)) as [cl|] eqn:E; cbn [fst snd]; (split; [exact HI|]; split; [apply K_refl|]); [|exact I].
-  split; [exists cl; split; [exact E|apply same_meta_refl]|]. split; [|eapply (i_kind s HI); eauto]. intros tn c Ev. apply rec_ctx_kind. eapply (i_recval s HI); eauto.
+  split; [exists cl; split; [exact E|apply same_meta_refl]|]. split; [|split; [eapply (i_kind s HI); eauto|eapply (i_name s HI); eauto]]. intros tn c Ev. apply rec_ctx_kind. eapply (i_recval s HI); eauto.
 Qed.
 (* reading an array: its elements may be written *)
+Definition hastype (e : N) (ty : dtype) (s : st) : Prop := exists cl, nm_get e (s_cells s) = Some cl /\ c_type cl = ty /\ (named_kind (dk ty) = true -> dname ty <> None).
+Lemma stable_hastype e ty : stable (hastype e ty).
+Proof. intros s s' H [cl [E [T Nm]]]. destruct (k_meta _ _ H e cl E) as [cl' [E' [_ [M2 _]]]]. exists cl'. split; [exact E'|]. split; [congruence|exact Nm]. Qed.
+Lemma Inv_type_named s id cl : Inv s -> nm_get id (s_cells s) = Some cl -> named_kind (dk (c_type cl)) = true -> dname (c_type cl) <> None.
+Proof.
+  intros HI E Hk. rewrite <- (i_kind s HI id cl E) in Hk. destruct (kind_pname _ Hk) as [tn Hp]. rewrite (i_name s HI id cl E tn Hp). discriminate.
+Qed.
+Definition arris (id : N) (ar : arr) (s : st) : Prop := nm_get id (s_arrs s) = Some ar.
+Lemma stable_arris id ar : stable (arris id ar).
+Proof. intros s s' H E. apply (k_arr _ _ H). exact E. Qed.
 Lemma tr_get_arr (P : st -> Prop) id :
-  tr P (get_arr id) (fun ar s => Forall (fun e => nonconst e s) (a_elems ar)).
+  tr P (get_arr id) (fun ar s => Forall (fun e => nonconst e s) (a_elems ar) /\ Forall (fun e => hastype e (a_type ar) s) (a_elems ar) /\ arris id ar s).
 Proof.
   intros s HI HP. unfold get_arr. destruct (nm_get id (s_arrs s)) as [ar|] eqn:E; cbn [fst snd]; (split; [exact HI|]; split; [apply K_refl|]); [|exact I].
-  apply Forall_forall. intros e He. destruct (i_elems s HI id ar e E He) as [cl [Ecl C]]. exists cl. auto.
+  split; [|split; [|exact E]]; apply Forall_forall; intros e He; destruct (i_elems s HI id ar e E He) as [cl [Ecl [C T]]]; exists cl; [auto|].
+  split; [exact Ecl|]. split; [exact T|]. rewrite <- T. eapply Inv_type_named; eauto.
 Qed.
 (* reading a context: its kind is known; the variables of a record's context may be written; a kept return value is a proper value *)
 Definition retok (cx : ctx) (s : st) : Prop := forall r, x_retval cx = Some r -> resok r s.
@@ -218,7 +243,7 @@ Proof.
   split; [exists cx; auto|]. split.
   - intros Hr. apply Forall_forall. intros [nm v] Hin.
     destruct (i_recvars s HI id cx nm v E Hr Hin) as [cl [Ecl Ho]]. exists cl. split; [exact Ecl|]. right. right. exact Ho.
-  - intros r E1 p E2. split; [|eapply (i_retkind s HI); eauto]. intros tn c ->. apply rec_ctx_kind. eapply (i_retval s HI); eauto.
+  - intros r E1 p E2. split; [|split; [eapply (i_retkind s HI); eauto|eapply (i_retname s HI); eauto]]. intros tn c ->. apply rec_ctx_kind. eapply (i_retval s HI); eauto.
 Qed.
 
 (* ---- writing a payload ---- *)
@@ -229,14 +254,14 @@ Proof. intros E [cx H]. exists cx. rewrite E. exact H. Qed.
 
 Lemma tr_set_cell_val (P : st -> Prop) id v : (forall s, P s -> wr id s /\ valok v s /\ fits id v s) -> tr P (set_cell_val id v) (fun _ _ => True).
 Proof.
-  intros Hpre s HI HP. destruct (Hpre s HP) as [[c0 [E0 U0]] [HV [c1 [E1 HF]]]]. assert (c1 = c0) by congruence. subst c1. unfold set_cell_val, bind, get_cell. rewrite E0. cbn [fst snd put_cell modify].
+  intros Hpre s HI HP. destruct (Hpre s HP) as [[c0 [E0 U0]] [HV [c1 [E1 [HF HN]]]]]. assert (c1 = c0) by congruence. subst c1. unfold set_cell_val, bind, get_cell. rewrite E0. cbn [fst snd put_cell modify].
   set (c' := mkCell (c_name c0) (c_type c0) (c_const c0) (c_owner c0) v).
   set (s' := set_cells (nm_put id c' (s_cells s)) s).
   assert (Ec : s_ctxs s' = s_ctxs s) by reflexivity.
   assert (G : forall j, nm_get j (s_cells s') = if N.eq_dec id j then Some c' else nm_get j (s_cells s)).
   { intros j. unfold s'. cbn. destruct (N.eq_dec id j) as [<-|Hne]; [apply nm_get_put_same|apply nm_get_put_other; exact Hne]. }
   split; [|split; [|exact I]].
-  - destruct HI as [[H1 [H2 H3]] B C D E IK IR]. constructor.
+  - destruct HI as [[H1 [H2 H3]] B C D E IK IR IN IRN]. constructor.
     + split; [|split]; [|exact H2|exact H3]. intros j x Ex. rewrite G in Ex. destruct (N.eq_dec id j) as [<-|Hne]; [apply (H1 id c0 E0)|apply (H1 j x Ex)].
     + intros rc cx nm j Erc Hr Hin. destruct (B rc cx nm j Erc Hr Hin) as [cl [Ecl Ho]]. rewrite G. destruct (N.eq_dec id j) as [<-|Hne].
       * exists c'. split; [reflexivity|]. assert (cl = c0) by congruence. subst cl. cbn. apply (rec_ctx_same_ctxs s s' _ Ec Ho).
@@ -250,6 +275,8 @@ Proof.
     + intros j cx r tn c Ej Er Ev. apply (rec_ctx_same_ctxs s s' _ Ec). eapply E; eauto.
     + intros j cl Ej. rewrite G in Ej. destruct (N.eq_dec id j) as [<-|Hne]; [inversion Ej; subst cl; cbn; exact HF|eapply IK; eauto].
     + intros j cx r p Ej Er Ev. eapply IR; eauto.
+    + intros j cl Ej. rewrite G in Ej. destruct (N.eq_dec id j) as [<-|Hne]; [inversion Ej; subst cl; cbn; exact HN|eapply IN; eauto].
+    + intros j cx r p Ej Er Ev. eapply IRN; eauto.
   - constructor.
     + cbn. lia.
     + intros j cl Ej. rewrite G. destruct (N.eq_dec id j) as [<-|Hne].
@@ -276,14 +303,14 @@ Proof.
   - intros id cl E _. apply E1. exact E.
 Qed.
 
-Lemma alloc_cell_inv cl s : Inv s -> valok (c_val cl) s -> payload_kind (c_val cl) = dk (c_type cl) ->
+Lemma alloc_cell_inv cl s : Inv s -> valok (c_val cl) s -> payload_kind (c_val cl) = dk (c_type cl) -> named_ok (c_val cl) (c_type cl) ->
   Inv (alloc_cell cl s) /\ K s (alloc_cell cl s) /\ cellmeta (s_next s) cl (alloc_cell cl s).
 Proof.
-  intros HI HV HKd. destruct (alloc_cell_spec cl s (i_hb s HI)) as [Hb' [[Hext [_ Hn]] Hg]].
+  intros HI HV HKd HNm. destruct (alloc_cell_spec cl s (i_hb s HI)) as [Hb' [[Hext [_ Hn]] Hg]].
   assert (Ec : s_ctxs (alloc_cell cl s) = s_ctxs s) by reflexivity.
   assert (Ea : s_arrs (alloc_cell cl s) = s_arrs s) by reflexivity.
   split; [|split; [apply K_of_ext; auto|exists cl; split; [exact Hg|apply same_meta_refl]]].
-  destruct HI as [A B C D E IK IR]. constructor; [exact Hb'| | | | | |].
+  destruct HI as [A B C D E IK IR IN IRN]. constructor; [exact Hb'| | | | | | | |].
   - intros rc cx nm j Erc Hr Hin. rewrite Ec in Erc. destruct (B rc cx nm j Erc Hr Hin) as [x [Ex Ho]].
     exists x. split; [apply (proj1 Hext); exact Ex|apply (rec_ctx_same_ctxs s _ _ Ec Ho)].
   - intros a ar e Ea' He. rewrite Ea in Ea'. destruct (C a ar e Ea' He) as [x [Ex Hc]]. exists x. split; [apply (proj1 Hext); exact Ex|exact Hc].
@@ -296,39 +323,46 @@ Proof.
     + rewrite Hg in Ej. inversion Ej; subst x. exact HKd.
     + unfold alloc_cell in Ej. cbn in Ej. rewrite nm_get_put_other in Ej by exact Hne. eapply IK; eauto.
   - intros j cx r p Ej Er Ev. rewrite Ec in Ej. eapply IR; eauto.
+  - intros j x Ej. destruct (N.eq_dec (s_next s) j) as [<-|Hne].
+    + rewrite Hg in Ej. inversion Ej; subst x. exact HNm.
+    + unfold alloc_cell in Ej. cbn in Ej. rewrite nm_get_put_other in Ej by exact Hne. eapply IN; eauto.
+  - intros j cx r p Ej Er Ev. rewrite Ec in Ej. eapply IRN; eauto.
 Qed.
 
 Lemma tr_alloc_cell {B} (P : st -> Prop) cl (k : N -> M B) R : stable P ->
-  (forall s, P s -> valok (c_val cl) s /\ payload_kind (c_val cl) = dk (c_type cl)) ->
+  (forall s, P s -> valok (c_val cl) s /\ payload_kind (c_val cl) = dk (c_type cl) /\ named_ok (c_val cl) (c_type cl)) ->
   (forall id, tr (fun s => P s /\ cellmeta id cl s) (k id) R) ->
   tr P (id <- fresh ;; put_cell id cl ;;; k id) R.
 Proof.
   intros SP HV Hk s HI HP. unfold bind, fresh, put_cell, modify. cbn [fst snd].
   change (set_cells _ _) with (alloc_cell cl s).
-  destruct (alloc_cell_inv cl s HI (proj1 (HV s HP)) (proj2 (HV s HP))) as [I1 [K1 M1]].
+  destruct (alloc_cell_inv cl s HI (proj1 (HV s HP)) (proj1 (proj2 (HV s HP))) (proj2 (proj2 (HV s HP)))) as [I1 [K1 M1]].
   destruct (Hk (s_next s) (alloc_cell cl s) I1 (conj (SP _ _ K1 HP) M1)) as [I2 [K2 Q2]].
   split; [exact I2|]. split; [eapply K_trans; eauto|exact Q2].
 Qed.
 
-Lemma alloc_arr_inv a s : Inv s -> Forall (fun e => nonconst e s) (a_elems a) -> Inv (alloc_arr a s) /\ K s (alloc_arr a s).
+Lemma alloc_arr_inv a s : Inv s -> Forall (fun e => nonconst e s /\ hastype e (a_type a) s) (a_elems a) -> Inv (alloc_arr a s) /\ K s (alloc_arr a s).
 Proof.
   intros HI HE. destruct (alloc_arr_spec a s (i_hb s HI)) as [Hb' [[Hext [_ Hn]] Hg]].
   assert (Ec : s_ctxs (alloc_arr a s) = s_ctxs s) by reflexivity.
   assert (Ece : s_cells (alloc_arr a s) = s_cells s) by reflexivity.
   split; [|apply K_of_ext; auto].
-  destruct HI as [A B C D E IK IR]. constructor; [exact Hb'| | | | | |].
+  destruct HI as [A B C D E IK IR IN IRN]. constructor; [exact Hb'| | | | | | | |].
   - intros rc cx nm j Erc Hr Hin. rewrite Ec in Erc. rewrite Ece. destruct (B rc cx nm j Erc Hr Hin) as [x [Ex Ho]].
     exists x. split; [exact Ex|apply (rec_ctx_same_ctxs s _ _ Ec Ho)].
   - intros j ar e Ej He. rewrite Ece. destruct (N.eq_dec (s_next s) j) as [<-|Hne].
-    + rewrite Hg in Ej. inversion Ej; subst ar. rewrite Forall_forall in HE. apply HE. exact He.
+    + rewrite Hg in Ej. inversion Ej; subst ar. rewrite Forall_forall in HE. destruct (HE e He) as [[cl [E1 C1]] [cl2 [E2 [T2 _]]]].
+      exists cl. split; [exact E1|]. split; [exact C1|congruence].
     + unfold alloc_arr in Ej. cbn in Ej. rewrite nm_get_put_other in Ej by exact Hne. eapply C; eauto.
   - intros j x tn c Ej Ev. rewrite Ece in Ej. apply (rec_ctx_same_ctxs s _ _ Ec). eapply D; eauto.
   - intros j cx r tn c Ej Er Ev. rewrite Ec in Ej. apply (rec_ctx_same_ctxs s _ _ Ec). eapply E; eauto.
   - intros j x Ej. rewrite Ece in Ej. eapply IK; eauto.
   - intros j cx r p Ej Er Ev. rewrite Ec in Ej. eapply IR; eauto.
+  - intros j x Ej. rewrite Ece in Ej. eapply IN; eauto.
+  - intros j cx r p Ej Er Ev. rewrite Ec in Ej. eapply IRN; eauto.
 Qed.
 Lemma tr_alloc_arr {B} (P : st -> Prop) a (k : N -> M B) R : stable P ->
-  (forall s, P s -> Forall (fun e => nonconst e s) (a_elems a)) ->
+  (forall s, P s -> Forall (fun e => nonconst e s /\ hastype e (a_type a) s) (a_elems a)) ->
   (forall id, tr P (k id) R) ->
   tr P (id <- fresh ;; put_arr id a ;;; k id) R.
 Proof.
@@ -345,7 +379,7 @@ Proof.
   assert (Ece : s_cells (alloc_ctx cx s) = s_cells s) by reflexivity.
   assert (Ea : s_arrs (alloc_ctx cx s) = s_arrs s) by reflexivity.
   split; [|split; [apply K_of_ext; auto|exists cx; auto]].
-  destruct HI as [A B C D E IK IR]. constructor; [exact Hb'| | | | | |].
+  destruct HI as [A B C D E IK IR IN IRN]. constructor; [exact Hb'| | | | | | | |].
   - intros rc cx0 nm j Erc Hr Hin. rewrite Ece. destruct (N.eq_dec (s_next s) rc) as [<-|Hne].
     + rewrite Hg in Erc. inversion Erc; subst cx0. rewrite HE in Hin. contradiction.
     + unfold alloc_ctx in Erc. cbn in Erc. rewrite nm_get_put_other in Erc by exact Hne.
@@ -359,6 +393,10 @@ Proof.
   - intros j cx0 r p Ej Er Ev. destruct (N.eq_dec (s_next s) j) as [<-|Hne].
     + rewrite Hg in Ej. inversion Ej; subst cx0. congruence.
     + unfold alloc_ctx in Ej. cbn in Ej. rewrite nm_get_put_other in Ej by exact Hne. eapply IR; eauto.
+  - intros j x Ej. rewrite Ece in Ej. eapply IN; eauto.
+  - intros j cx0 r p Ej Er Ev. destruct (N.eq_dec (s_next s) j) as [<-|Hne].
+    + rewrite Hg in Ej. inversion Ej; subst cx0. congruence.
+    + unfold alloc_ctx in Ej. cbn in Ej. rewrite nm_get_put_other in Ej by exact Hne. eapply IRN; eauto.
 Qed.
 Lemma tr_alloc_ctx {B} (P : st -> Prop) cx (k : N -> M B) R : stable P -> x_vars cx = [] -> x_retval cx = None ->
   (forall id, tr (fun s => P s /\ ctxkind id (x_isrec cx) s) (k id) R) ->
@@ -379,7 +417,7 @@ Proof.
 Qed.
 
 Lemma Inv_retok s c cx r : Inv s -> nm_get c (s_ctxs s) = Some cx -> x_retval cx = Some r -> resok r s.
-Proof. intros HI E Er p Ev. split; [|eapply (i_retkind s HI); eauto]. intros tn k ->. apply rec_ctx_kind. eapply (i_retval s HI); eauto. Qed.
+Proof. intros HI E Er p Ev. split; [|split; [eapply (i_retkind s HI); eauto|eapply (i_retname s HI); eauto]]. intros tn k ->. apply rec_ctx_kind. eapply (i_retval s HI); eauto. Qed.
 (* the new record of the context has the same kind; if the context is a record's, every variable it lists is a cell of a record context *)
 Lemma upd_ctx_inv c cx cx' s : Inv s -> nm_get c (s_ctxs s) = Some cx -> x_isrec cx' = x_isrec cx ->
   (x_isrec cx = true -> forall nm id, In (nm, id) (x_vars cx') -> ownrec id s) ->
@@ -394,7 +432,7 @@ Proof.
   assert (PC : forall j, plain_ctx s j -> plain_ctx s' j).
   { intros j [x [Ex Fx]]. unfold plain_ctx. rewrite G. destruct (N.eq_dec c j) as [<-|Hne]; [exists cx'; split; [reflexivity|]; assert (x = cx) by congruence; subst x; congruence|exists x; auto]. }
   split.
-  - destruct HI as [[H1 [H2 H3]] B C D E0 IK IR]. constructor.
+  - destruct HI as [[H1 [H2 H3]] B C D E0 IK IR IN IRN]. constructor.
     + split; [exact H1|]. split; [exact H2|]. intros j x Ex. rewrite G in Ex. destruct (N.eq_dec c j) as [<-|Hne]; [apply (H3 c cx E)|apply (H3 j x Ex)].
     + intros rc x nm j Erc Hr Hin. rewrite G in Erc. destruct (N.eq_dec c rc) as [<-|Hne].
       * inversion Erc; subst x. rewrite Hk in Hr. destruct (Hv Hr nm j Hin) as [cl [Ecl Ho]]. exists cl. split; [exact Ecl|apply RC; exact Ho].
@@ -403,7 +441,9 @@ Proof.
     + intros j cl tn k Ej Ev. apply RC. eapply D; eauto.
     + intros j x r tn k Ej Er Ev. apply RC. rewrite G in Ej. destruct (N.eq_dec c j) as [<-|Hne]; [inversion Ej; subst x; apply rec_ctx_kind; eapply (proj1 (Hret r Er _ Ev)); reflexivity|eapply E0; eauto].
     + exact IK.
-    + intros j x r p Ej Er Ev. rewrite G in Ej. destruct (N.eq_dec c j) as [<-|Hne]; [inversion Ej; subst x; exact (proj2 (Hret r Er _ Ev))|eapply IR; eauto].
+    + intros j x r p Ej Er Ev. rewrite G in Ej. destruct (N.eq_dec c j) as [<-|Hne]; [inversion Ej; subst x; exact (proj1 (proj2 (Hret r Er _ Ev)))|eapply IR; eauto].
+    + exact IN.
+    + intros j x r p Ej Er Ev. rewrite G in Ej. destruct (N.eq_dec c j) as [<-|Hne]; [inversion Ej; subst x; exact (proj2 (proj2 (Hret r Er _ Ev)))|eapply IRN; eauto].
   - constructor.
     + cbn. lia.
     + intros j cl Ej. exists cl. split; [exact Ej|apply same_meta_refl].
@@ -510,49 +550,57 @@ Lemma stable_impl (X : Prop) F : stable F -> stable (fun s => X -> F s).
 Proof. intros H s s' HK HF x. eapply H; eauto. Qed.
 
 Ltac stab := repeat first [ assumption | apply stable_retok | apply stable_impl | apply stable_and | apply stable_true | apply stable_pure | apply stable_cellmeta | apply stable_ctxkind | apply stable_wr
-                          | apply stable_valok | apply stable_nonconst | apply stable_ownrec | apply stable_fits | apply stable_resok | (apply stable_Forall; intros ?) | (apply stable_Forall2; intros ? ?) ].
+                          | apply stable_valok | apply stable_nonconst | apply stable_ownrec | apply stable_fits | apply stable_resok | apply stable_hastype | apply stable_arris | (apply stable_Forall; intros ?) | (apply stable_Forall2; intros ? ?) ].
 
 Lemma tr_false {A} (P : st -> Prop) (m : M A) (Q : A -> st -> Prop) : (forall s, P s -> False) -> tr P m Q.
 Proof. intros H s _ HP. exfalso. eapply H; eauto. Qed.
 
 (* ------------------------------------------------------------------ Heap.v: the copy constructor *)
-Definition copy_val_tr (f : nat) : Prop := forall (P : st -> Prop) p, stable P -> (forall s, P s -> valok p s) -> tr P (copy_val f p) (fun v s => valok v s /\ payload_kind v = payload_kind p).
+Definition copy_val_tr (f : nat) : Prop := forall (P : st -> Prop) p, stable P -> (forall s, P s -> valok p s) ->
+  tr P (copy_val f p) (fun v s => valok v s /\ payload_kind v = payload_kind p /\ pname v = pname p).
 Definition copy_ctx_tr (f : nat) : Prop := forall (P : st -> Prop) c, stable P -> (forall s, P s -> ctxkind c true s) -> tr P (copy_ctx f c) (fun c' s => ctxkind c' true s).
 
 Lemma Forall2_right {A B} (Q : B -> Prop) (R : A -> B -> Prop) l l' : Forall2 R l l' -> (forall x y, R x y -> Q y) -> Forall Q l'.
 Proof. intros F H. induction F; constructor; eauto. Qed.
+Lemma named_ok_pname p q ty : pname q = pname p -> named_ok p ty -> named_ok q ty.
+Proof. intros E H tn Hq. apply H. congruence. Qed.
+Lemma cellmeta_hastype id cl ty s : cellmeta id cl s -> c_type cl = ty -> (named_kind (dk ty) = true -> dname ty <> None) -> hastype id ty s.
+Proof. intros [c' [E [_ [M2 _]]]] T Hn. exists c'. split; [exact E|]. split; [congruence|exact Hn]. Qed.
 
 Lemma copy_tr : forall f, copy_val_tr f /\ copy_ctx_tr f.
 Proof.
   induction f as [|f [IHv IHc]].
   - split.
-    + intros P p SP HV. destruct p; cbn [copy_val]; try (eapply tr_post; [apply tr_ret|]; intros a0 s0 [-> Hs]; split; [apply valok_nonrec; intros; discriminate|reflexivity]). apply tr_failm.
+    + intros P p SP HV. destruct p; cbn [copy_val]; try (eapply tr_post; [apply tr_ret|]; intros a0 s0 [-> Hs]; split; [apply valok_nonrec; intros; discriminate|split; reflexivity]). apply tr_failm.
     + intros P c SP HV. cbn [copy_ctx]. apply tr_failm.
   - split.
-    + intros P p SP HV. destruct p as [| | | | | | | |tn c]; cbn [copy_val]; try (eapply tr_post; [apply tr_ret|]; intros a0 s0 [-> Hs]; split; [apply valok_nonrec; intros; discriminate|reflexivity]).
+    + intros P p SP HV. destruct p as [| | | | | | | |tn c]; cbn [copy_val]; try (eapply tr_post; [apply tr_ret|]; intros a0 s0 [-> Hs]; split; [apply valok_nonrec; intros; discriminate|split; reflexivity]).
       eapply tr_bind; [exact SP|apply IHc; [exact SP|intros s Hs; eapply HV; eauto]|]. intros c'.
-      eapply tr_post; [apply tr_ret|]. intros a s [-> [_ Hk]]. split; [|reflexivity]. intros tn' c0 E. inversion E; subst. exact Hk.
+      eapply tr_post; [apply tr_ret|]. intros a s [-> [_ Hk]]. split; [|split; reflexivity]. intros tn' c0 E. inversion E; subst. exact Hk.
     + intros P c SP HV. cbn [copy_ctx].
       eapply tr_bind; [exact SP|apply tr_get_ctx|]. intros cx.
       destruct (x_isrec cx) eqn:Hr; [|apply tr_false; intros s [Hs [Hk _]]; pose proof (ctxkind_unique _ _ _ _ Hk (HV s Hs)) as X; congruence].
       apply tr_alloc_ctx; [stab|reflexivity|reflexivity|]. intros id. change (x_isrec (blank_ctx_like cx)) with (x_isrec cx). rewrite Hr.
       set (P1 := fun s => (P s /\ ctxkind c true s /\ (true = true -> Forall (fun nv : str * N => wr (snd nv) s) (x_vars cx)) /\ retok cx s) /\ ctxkind id true s).
       assert (SP1 : stable P1) by (unfold P1; stab).
-      (* one cell: copy the value, allocate the new cell, owned by the new context *)
-      assert (CELL : forall (keep : bool) src, tr P1 (cl <- get_cell src ;; v' <- copy_val f (c_val cl) ;; nid <- fresh ;;
+      (* one cell: copy the value, allocate the new cell, owned by the new context, of the type of the old one *)
+      assert (CELL : forall (P2 : st -> Prop) (keep : bool) src ty, stable P2 -> (forall s, P2 s -> P1 s /\ hastype src ty s) ->
+                        tr P2 (cl <- get_cell src ;; v' <- copy_val f (c_val cl) ;; nid <- fresh ;;
                         put_cell nid (mkCell (c_name cl) (c_type cl) (if keep then c_const cl else false) id v') ;;; ret nid)
-                        (fun nid s => ownrec nid s /\ (keep = false -> nonconst nid s))).
-      { intros keep src. eapply tr_bind; [exact SP1|apply tr_get_cell|]. intros cl.
+                        (fun nid s => ownrec nid s /\ (keep = false -> nonconst nid s) /\ hastype nid ty s)).
+      { intros P2 keep src ty SP2 HP2. eapply tr_bind; [exact SP2|apply tr_get_cell|]. intros cl.
         eapply tr_bind; [stab|apply IHv; [stab|intros s [_ [_ [Hv _]]]; exact Hv]|]. intros v'.
-        apply tr_alloc_cell; [stab|intros s [[_ [_ [_ Hk]]] [Hv Hk']]; cbn [c_val c_type]; split; [exact Hv|congruence]|]. intros nid.
-        eapply tr_post; [apply tr_ret|]. intros a s [-> [[[HP1 _] _] Hm]]. split.
+        apply tr_alloc_cell; [stab|intros s [[_ [_ [_ [Hk Hn]]]] [Hv [Hk' Hn']]]; cbn [c_val c_type]; split; [exact Hv|split; [congruence|eapply named_ok_pname; eauto]]|]. intros nid.
+        eapply tr_post; [apply tr_ret|]. intros a s [-> [[[HP2s [Hmsrc _]] _] Hm]]. destruct (HP2 s HP2s) as [HP1 [cs [Es [Ts Ns]]]]. split; [|split].
         - eapply cellmeta_ownrec; [exact Hm|]. cbn. apply HP1.
-        - intros ->. eapply cellmeta_nonconst; [exact Hm|reflexivity]. }
+        - intros ->. eapply cellmeta_nonconst; [exact Hm|reflexivity].
+        - destruct Hmsrc as [c' [E' [_ [M2 _]]]]. assert (c' = cs) by congruence. subst c'.
+          eapply cellmeta_hastype; [exact Hm| |exact Ns]. cbn [c_type]. congruence. }
       eapply tr_bind; [exact SP1| |].
       { apply (tr_mapM P1 _ (fun (nv y : str * N) s => ownrec (snd y) s)); [exact SP1|intros; stab|]. intros nv _.
         eapply tr_bind; [exact SP1|apply tr_get_cell|]. intros cl.
         eapply tr_bind; [stab|apply IHv; [stab|intros s [_ [_ [Hv _]]]; exact Hv]|]. intros v'.
-        apply tr_alloc_cell; [stab|intros s [[_ [_ [_ Hk]]] [Hv Hk']]; cbn [c_val c_type]; split; [exact Hv|congruence]|]. intros nid.
+        apply tr_alloc_cell; [stab|intros s [[_ [_ [_ [Hk Hn]]]] [Hv [Hk' Hn']]]; cbn [c_val c_type]; split; [exact Hv|split; [congruence|eapply named_ok_pname; eauto]]|]. intros nid.
         eapply tr_post; [apply tr_ret|]. intros a s [-> [[[HP1 _] _] Hm]]. cbn [snd].
         eapply cellmeta_ownrec; [exact Hm|]. cbn. apply HP1. }
       intros vars'.
@@ -560,10 +608,12 @@ Proof.
       { eapply (tr_mapM _ _ (fun (na y : str * N) (_ : st) => True)); [stab|intros; stab|]. intros na _.
         eapply tr_bind; [stab|apply tr_get_arr|]. intros a.
         eapply tr_bind; [stab| |].
-        { eapply (tr_mapM _ _ (fun (e y : N) (s : st) => nonconst y s)); [stab|intros; stab|]. intros e _.
-          eapply tr_pre; [|eapply tr_post; [apply (CELL false e)|]]; [intros s [[HA _] _]; exact HA|]. intros nid s [_ Hn]. apply Hn. reflexivity. }
+        { eapply (tr_mapM _ _ (fun (e y : N) (s : st) => nonconst y s /\ hastype y (a_type a) s)); [stab|intros; stab|]. intros e Hin.
+          eapply tr_post; [apply (CELL _ false e (a_type a)); [stab|]|].
+          - intros s [[HA _] [_ [HT _]]]. split; [exact HA|]. rewrite Forall_forall in HT. apply HT. exact Hin.
+          - intros nid s [_ [Hn Ht]]. split; [apply Hn; reflexivity|exact Ht]. }
         intros elems'. apply tr_alloc_arr; [stab| |].
-        - intros s [_ HF]. cbn [a_elems]. eapply Forall2_right; [exact HF|]. intros x y Hy. exact Hy.
+        - intros s [_ HF]. cbn [a_elems a_type]. eapply Forall2_right; [exact HF|]. intros x y Hy. exact Hy.
         - intros naid. eapply tr_post; [apply tr_ret|]. intros; exact I. }
       intros arrs'.
       eapply tr_bind; [stab| |].
@@ -617,103 +667,266 @@ Proof.
     apply ro_arr_layout. exact IH.
 Qed.
 
+(* ------------------------------------------------------------------ what a successful layout check says *)
+Lemma all2M_true {A B} (f : A -> B -> M bool) : (forall x y, ro (f x y)) -> forall l1 l2 s,
+  fst (all2M f l1 l2 s) = Ok true -> forall x y, In (x, y) (combine l1 l2) -> fst (f x y s) = Ok true.
+Proof.
+  intros Hro. induction l1 as [|a r1 IH]; intros l2 s H x y Hin; [contradiction|].
+  destruct l2 as [|b r2]; [contradiction|]. cbn [all2M] in H. unfold bind in H.
+  pose proof (Hro a b s) as R. destruct (f a b s) as [[ok|e] s1] eqn:E; cbn [fst snd] in *; [|discriminate H]. subst s1.
+  destruct ok; [|cbn in H; discriminate H].
+  destruct Hin as [Hin|Hin]; [inversion Hin; subst; rewrite E; reflexivity|]. eapply IH; eauto.
+Qed.
+
+Definition field_check (f : nat) (dv sv : str * N) : M bool :=
+  d <- get_cell (snd dv) ;; s <- get_cell (snd sv) ;;
+  if negb (dt_eq (c_type d) (c_type s)) then ret false
+  else if dt_is (c_type d) KRec then
+    match c_val d, c_val s with
+    | PRec _ x, PRec _ y => same_layout f x y
+    | _, _ => crash "get<Composite> on other payload"
+    end
+  else ret true.
+Definition arr_check (f : nat) (da sa : str * N) : M bool :=
+  a1 <- get_arr (snd da) ;; a2 <- get_arr (snd sa) ;; arr_layout (same_layout f) a1 a2.
+Lemma ro_field_check f dv sv : ro (field_check f dv sv).
+Proof.
+  unfold field_check. apply ro_bind; [apply ro_get_cell|]. intros d. apply ro_bind; [apply ro_get_cell|]. intros s0.
+  apply ro_if; [apply ro_ret|]. apply ro_if; [|apply ro_ret]. destruct (c_val d); try apply ro_crash. destruct (c_val s0); try apply ro_crash. apply ro_same_layout.
+Qed.
+Lemma ro_arr_check f da sa : ro (arr_check f da sa).
+Proof.
+  unfold arr_check. apply ro_bind; [apply ro_get_arr|]. intros a1. apply ro_bind; [apply ro_get_arr|]. intros a2. apply ro_arr_layout. apply ro_same_layout.
+Qed.
+Definition field_types_agree (s : st) (dv sv : str * N) : Prop :=
+  exists d s0, nm_get (snd dv) (s_cells s) = Some d /\ nm_get (snd sv) (s_cells s) = Some s0 /\ dt_eq (c_type d) (c_type s0) = true.
+Definition arr_types_agree (s : st) (da sa : str * N) : Prop :=
+  exists a1 a2, nm_get (snd da) (s_arrs s) = Some a1 /\ nm_get (snd sa) (s_arrs s) = Some a2 /\ dt_eq (a_type a1) (a_type a2) = true.
+Lemma field_check_true f dv sv s : fst (field_check f dv sv s) = Ok true -> field_types_agree s dv sv.
+Proof.
+  unfold field_check, bind, get_cell. intros H. destruct (nm_get (snd dv) (s_cells s)) as [d|] eqn:Ed; cbn [fst snd] in H; [|discriminate H].
+  destruct (nm_get (snd sv) (s_cells s)) as [s0|] eqn:Es; cbn [fst snd] in H; [|discriminate H].
+  exists d, s0. split; [first [exact Ed|reflexivity]|]. split; [first [exact Es|reflexivity]|]. destruct (dt_eq (c_type d) (c_type s0)); [reflexivity|cbn in H; discriminate H].
+Qed.
+Lemma arr_check_true f da sa s : fst (arr_check f da sa s) = Ok true -> arr_types_agree s da sa.
+Proof.
+  unfold arr_check, bind, get_arr. intros H. destruct (nm_get (snd da) (s_arrs s)) as [a1|] eqn:Ed; cbn [fst snd] in H; [|discriminate H].
+  destruct (nm_get (snd sa) (s_arrs s)) as [a2|] eqn:Es; cbn [fst snd] in H; [|discriminate H].
+  exists a1, a2. split; [first [exact Ed|reflexivity]|]. split; [first [exact Es|reflexivity]|]. unfold arr_layout in H. destruct (dt_eq (a_type a1) (a_type a2)); [reflexivity|cbn in H; discriminate H].
+Qed.
+Lemma same_layout_unfold f dc sc : same_layout (S f) dc sc =
+  (dx <- get_ctx dc ;; sx <- get_ctx sc ;;
+   if negb (Nat.eqb (List.length (x_vars dx)) (List.length (x_vars sx))) || negb (Nat.eqb (List.length (x_arrs dx)) (List.length (x_arrs sx))) then ret false else
+   ok <- all2M (field_check f) (x_vars dx) (x_vars sx) ;;
+   if negb ok then ret false else all2M (arr_check f) (x_arrs dx) (x_arrs sx)).
+Proof. reflexivity. Qed.
+Lemma same_layout_true f dc sc s : fst (same_layout (S f) dc sc s) = Ok true ->
+  exists dx sx, nm_get dc (s_ctxs s) = Some dx /\ nm_get sc (s_ctxs s) = Some sx /\
+    (forall dv sv, In (dv, sv) (combine (x_vars dx) (x_vars sx)) -> field_types_agree s dv sv) /\
+    (forall da sa, In (da, sa) (combine (x_arrs dx) (x_arrs sx)) -> arr_types_agree s da sa).
+Proof.
+  rewrite same_layout_unfold. unfold bind at 1, get_ctx at 1. intros H.
+  destruct (nm_get dc (s_ctxs s)) as [dx|] eqn:Edx; cbn [fst snd] in H; [|discriminate H].
+  unfold bind at 1, get_ctx at 1 in H. destruct (nm_get sc (s_ctxs s)) as [sx|] eqn:Esx; cbn [fst snd] in H; [|discriminate H].
+  exists dx, sx. split; [first [exact Edx|reflexivity]|]. split; [first [exact Esx|reflexivity]|].
+  destruct (negb _ || negb _); [cbn in H; discriminate H|].
+  unfold bind at 1 in H.
+  assert (R : ro (all2M (field_check f) (x_vars dx) (x_vars sx))) by (apply ro_all2M; intros; apply ro_field_check).
+  pose proof (R s) as Rs. destruct (all2M (field_check f) (x_vars dx) (x_vars sx) s) as [[ok|e] s1] eqn:E1; cbn [fst snd] in *; [|discriminate H]. subst s1.
+  destruct ok; [|cbn in H; discriminate H]. cbn [negb] in H. split.
+  - intros dv sv Hin. eapply field_check_true. eapply (all2M_true (field_check f)); [intros; apply ro_field_check| |exact Hin]. rewrite E1. reflexivity.
+  - intros da sa Hin. eapply arr_check_true. eapply (all2M_true (arr_check f)); [intros; apply ro_arr_check|exact H|exact Hin].
+Qed.
+
+(* two types that passed the comparison carry the same name whenever they are user types *)
+Definition namesagree (td ts : dtype) : Prop := named_kind (dk ts) = true -> dname td = dname ts.
+Lemma dt_eq_namesagree td ts : dt_eq td ts = true -> (named_kind (dk td) = true -> dname td <> None) -> (named_kind (dk ts) = true -> dname ts <> None) -> namesagree td ts.
+Proof.
+  unfold dt_eq, namesagree. intros H Hd Hs Hk. destruct (dname td) as [x|] eqn:Ed, (dname ts) as [y|] eqn:Es.
+  - apply andb_prop in H. destruct H as [_ H]. apply str_eqb_eq in H. congruence.
+  - exfalso. apply Hs; auto.
+  - apply dk_eqb_eq in H. exfalso. apply Hd; [congruence|reflexivity].
+  - reflexivity.
+Qed.
+Definition typair (d s0 : N) (st0 : st) : Prop :=
+  exists cd cs, nm_get d (s_cells st0) = Some cd /\ nm_get s0 (s_cells st0) = Some cs /\ namesagree (c_type cd) (c_type cs).
+Lemma stable_typair d s0 : stable (typair d s0).
+Proof.
+  intros s s' H [cd [cs [E1 [E2 Hn]]]]. destruct (k_meta _ _ H d cd E1) as [cd' [E1' [_ [M2 _]]]]. destruct (k_meta _ _ H s0 cs E2) as [cs' [E2' [_ [N2 _]]]].
+  exists cd', cs'. split; [exact E1'|]. split; [exact E2'|]. rewrite M2, N2. exact Hn.
+Qed.
+Definition nfits (dst : N) (src : payload) (s : st) : Prop := exists cl, nm_get dst (s_cells s) = Some cl /\ named_ok src (c_type cl).
+Lemma stable_nfits dst src : stable (nfits dst src).
+Proof. intros s s' H [cl [E Hn]]. destruct (k_meta _ _ H dst cl E) as [cl' [E' [_ [M2 _]]]]. exists cl'. split; [exact E'|]. rewrite M2. exact Hn. Qed.
+Lemma typair_nfits d s0 cs st0 : typair d s0 st0 -> cellmeta s0 cs st0 -> payload_kind (c_val cs) = dk (c_type cs) -> named_ok (c_val cs) (c_type cs) -> nfits d (c_val cs) st0.
+Proof.
+  intros [cd [cs' [E1 [E2 Hn]]]] [c' [E' [_ [M2 _]]]] Hk Hnm. assert (c' = cs') by congruence. subst c'.
+  exists cd. split; [exact E1|]. intros tn Hp. rewrite Hn; [rewrite M2; apply Hnm; exact Hp|]. rewrite M2, <- Hk. eapply pname_kind; eauto.
+Qed.
+Lemma hastype_typair e1 e2 t1 t2 s : hastype e1 t1 s -> hastype e2 t2 s -> dt_eq t1 t2 = true -> typair e1 e2 s.
+Proof.
+  intros [c1 [E1 [T1 N1]]] [c2 [E2 [T2 N2]]] H. exists c1, c2. split; [exact E1|]. split; [exact E2|]. rewrite T1, T2. apply dt_eq_namesagree; assumption.
+Qed.
+Definition arrpair (d s0 : N) (st0 : st) : Prop := exists a1 a2, arris d a1 st0 /\ arris s0 a2 st0 /\ dt_eq (a_type a1) (a_type a2) = true.
+Lemma stable_arrpair d s0 : stable (arrpair d s0).
+Proof. intros s s' H [a1 [a2 [E1 [E2 T]]]]. exists a1, a2. split; [eapply stable_arris; eauto|]. split; [eapply stable_arris; eauto|exact T]. Qed.
+
+Ltac stab3 := repeat first [ assumption | apply stable_typair | apply stable_nfits | apply stable_arrpair | apply stable_retok | apply stable_impl | apply stable_and | apply stable_true | apply stable_pure
+                           | apply stable_cellmeta | apply stable_ctxkind | apply stable_wr | apply stable_valok | apply stable_nonconst | apply stable_ownrec | apply stable_fits | apply stable_resok
+                           | apply stable_hastype | apply stable_arris | (apply stable_Forall; intros ?) | (apply stable_Forall2; intros ? ?) ].
+
+Lemma tr_zipM_pairs {A B} (P : st -> Prop) (f : A -> B -> M unit) l1 : forall l2, stable P ->
+  (forall x y, In (x, y) (combine l1 l2) -> tr P (f x y) (fun _ _ => True)) -> tr P (zipM f l1 l2) (fun _ _ => True).
+Proof.
+  induction l1 as [|x r IH]; intros l2 SP H; cbn [zipM]; [eapply tr_true; apply tr_ret|].
+  destruct l2 as [|y r2]; [apply tr_failm|].
+  eapply tr_bind; [exact SP|apply H; left; reflexivity|]. intros u. eapply tr_pre; [|apply IH; [exact SP|intros a b Ha; apply H; right; exact Ha]]. intros s0 [HA _]. exact HA.
+Qed.
+
 (* ------------------------------------------------------------------ Heap.v: assignment into an existing value *)
-Definition set_copy_tr (f : nat) : Prop := forall (P : st -> Prop) dst src, stable P -> (forall s, P s -> wr dst s /\ valok src s) ->
+Definition set_copy_tr (f : nat) : Prop := forall (P : st -> Prop) dst src, stable P -> (forall s, P s -> wr dst s /\ valok src s /\ nfits dst src s) ->
   tr P (set_copy f dst src) (fun _ _ => True).
-Definition copy_var_data_tr (f : nat) : Prop := forall (P : st -> Prop) dc sc, stable P -> (forall s, P s -> ctxkind dc true s) ->
-  tr P (copy_var_data f dc sc) (fun _ _ => True).
+(* the layout check and, when it succeeds, Context::copyVariableData *)
+Definition comp_tr (f : nat) : Prop := forall (P : st -> Prop) dc sc, stable P -> (forall s, P s -> ctxkind dc true s) ->
+  tr P (ok <- same_layout f dc sc ;; if ok then copy_var_data f dc sc else rt_error err_token dc) (fun _ _ => True).
 
 Lemma tr_copy_go (P : st -> Prop) (sc : N -> payload -> M unit) : stable P ->
-  (forall (P' : st -> Prop) d p, stable P' -> (forall s, P' s -> wr d s /\ valok p s) -> tr P' (sc d p) (fun _ _ => True)) ->
-  forall l1 l2, (forall s, P s -> Forall (fun e => wr e s) l1) ->
+  (forall (P' : st -> Prop) d p, stable P' -> (forall s, P' s -> wr d s /\ valok p s /\ nfits d p s) -> tr P' (sc d p) (fun _ _ => True)) ->
+  forall l1 l2, (forall s, P s -> Forall (fun e => wr e s) l1) -> (forall s, P s -> Forall (fun p => typair (fst p) (snd p) s) (combine l1 l2)) ->
   tr P ((fix go (l1 l2 : list N) : M unit :=
            match l1, l2 with
            | e1 :: r1, e2 :: r2 => s <- get_cell e2 ;; sc e1 (c_val s) ;;; go r1 r2
            | _, _ => ret Datatypes.tt
            end) l1 l2) (fun _ _ => True).
 Proof.
-  intros SP H. induction l1 as [|e1 r1 IH]; intros l2 HF; [destruct l2; eapply tr_true; apply tr_ret|].
+  intros SP H. induction l1 as [|e1 r1 IH]; intros l2 HF HT; [destruct l2; eapply tr_true; apply tr_ret|].
   destruct l2 as [|e2 r2]; [eapply tr_true; apply tr_ret|].
   eapply tr_bind; [exact SP|apply tr_get_cell|]. intros cl.
-  eapply tr_bind; [stab| |].
-  - apply H; [stab|]. intros s [Hs [_ [Hv _]]]. split; [|exact Hv]. specialize (HF s Hs). inversion HF; assumption.
-  - intros u. eapply tr_pre; [|apply IH]. + intros s [[Hs _] _]. exact Hs. + intros s Hs. specialize (HF s Hs). inversion HF; assumption.
+  eapply tr_bind; [stab3| |].
+  - apply H; [stab3|]. intros s [Hs [Hm [Hv [Hk Hn]]]]. split; [specialize (HF s Hs); inversion HF; assumption|]. split; [exact Hv|].
+    specialize (HT s Hs). cbn [combine] in HT. inversion HT as [|? ? Hp _]; subst. cbn [fst snd] in Hp. eapply typair_nfits; eauto.
+  - intros u. eapply tr_pre; [|apply IH].
+    + intros s [[Hs _] _]. exact Hs.
+    + intros s Hs. specialize (HF s Hs). inversion HF; assumption.
+    + intros s Hs. specialize (HT s Hs). cbn [combine] in HT. inversion HT; assumption.
 Qed.
 
-Lemma tr_composite_assign (P : st -> Prop) cvd f tn0 dc tn sc : stable P ->
-  tr P (cvd dc sc) (fun _ _ => True) -> tr P (composite_assign cvd f tn0 dc tn sc) (fun _ _ => True).
+Lemma tr_composite_assign (P : st -> Prop) f tn0 dc tn sc : stable P -> comp_tr f -> (forall s, P s -> ctxkind dc true s) ->
+  tr P (composite_assign (copy_var_data f) f tn0 dc tn sc) (fun _ _ => True).
 Proof.
-  intros SP H. unfold composite_assign. destruct (str_eqb tn0 tn); [|apply tr_failm].
-  eapply tr_bind; [exact SP|apply tr_ro; apply ro_same_layout|]. intros ok. destruct ok.
-  - eapply tr_pre; [|exact H]. intros s [Hs _]. exact Hs.
-  - apply tr_rt_error.
+  intros SP H HV. unfold composite_assign. destruct (str_eqb tn0 tn); [|apply tr_failm]. apply H; assumption.
 Qed.
 
-Lemma set_copy_both : forall f, set_copy_tr f /\ copy_var_data_tr f.
+Lemma set_copy_both : forall f, set_copy_tr f /\ comp_tr f.
 Proof.
   induction f as [|f [IHs IHc]].
-  - split; intros P a b SP HV; [cbn [set_copy]|cbn [copy_var_data]]; apply tr_failm.
+  - split; [intros P a b SP HV; cbn [set_copy]; apply tr_failm|]. intros P dc sc SP HV s0 HI HP. cbn [same_layout]. unfold bind, failm. cbn [fst snd]. split; [exact HI|]. split; [apply K_refl|exact I].
   - split.
     + intros P dst src SP HV. cbn [set_copy]. eapply tr_bind; [exact SP|apply tr_get_cell|]. intros d.
-      assert (ELSE : tr (fun s => P s /\ cellmeta dst d s /\ valok (c_val d) s /\ payload_kind (c_val d) = dk (c_type d))
+      assert (ELSE : tr (fun s => P s /\ cellmeta dst d s /\ valok (c_val d) s /\ payload_kind (c_val d) = dk (c_type d) /\ named_ok (c_val d) (c_type d))
                         (if dk_eqb (dk (c_type d)) (payload_kind src) then v' <- copy_val f src ;; set_cell_val dst v' else crash "Variable::set: payload reinterpreted as another type")
                         (fun _ _ => True)).
       { destruct (dk_eqb (dk (c_type d)) (payload_kind src)) eqn:Edk; [|apply tr_failm]. apply dk_eqb_eq in Edk.
-        eapply tr_bind; [stab|apply (proj1 (copy_tr f)); [stab|intros s [Hs _]; apply (HV s Hs)]|]. intros v'.
-        apply tr_set_cell_val. intros s [[Hs [Hm _]] [Hv Hk]]. split; [apply (HV s Hs)|]. split; [exact Hv|]. eapply cellmeta_fits; [exact Hm|congruence]. }
+        eapply tr_bind; [stab3|apply (proj1 (copy_tr f)); [stab3|intros s [Hs _]; apply (HV s Hs)]|]. intros v'.
+        apply tr_set_cell_val. intros s [[Hs [Hm _]] [Hv [Hk Hp]]]. destruct (HV s Hs) as [Hw [_ [cl [Ecl Hnf]]]]. split; [exact Hw|]. split; [exact Hv|].
+        destruct Hm as [c' [E' [_ [M2 _]]]]. assert (c' = cl) by congruence. subst c'.
+        exists cl. split; [exact Ecl|]. split; [congruence|eapply named_ok_pname; eauto]. }
       destruct (c_val d) as [| | | | | | | |tn dc] eqn:Ed; try (rewrite <- Ed in ELSE; exact ELSE).
       destruct src as [| | | | | | | |tn' sc]; try (rewrite <- Ed in ELSE; exact ELSE).
-      apply tr_composite_assign; [stab|]. apply IHc; [stab|]. intros s [_ [_ [Hv _]]]. eapply Hv. exact Ed.
-    + intros P dc sc SP HV. cbn [copy_var_data].
-      eapply tr_bind; [exact SP|apply tr_get_ctx|]. intros dx.
-      destruct (x_isrec dx) eqn:Hr; [|apply tr_false; intros s [Hs [Hk _]]; pose proof (ctxkind_unique _ _ _ _ Hk (HV s Hs)) as X; congruence].
-      eapply tr_bind; [stab|apply tr_ro; apply ro_get_ctx|]. intros sx.
-      eapply tr_bind; [stab| |].
-      * apply tr_zipM; [stab|]. intros dv sv Hin. eapply tr_bind; [stab|apply tr_get_cell|]. intros cl.
-        apply IHs; [stab|]. intros s [[[_ [_ [HF _]]] _] [_ [Hv _]]]. split; [|exact Hv].
-        specialize (HF Hr). rewrite Forall_forall in HF. apply (HF dv Hin).
-      * intros u. apply tr_zipM; [stab|]. intros da sa Hin.
-        eapply tr_bind; [stab|apply tr_get_arr|]. intros a1. eapply tr_bind; [stab|apply tr_ro; apply ro_get_arr|]. intros a2.
-        apply tr_copy_go; [stab|exact IHs|]. intros s [[_ HF] _]. eapply Forall_impl; [|exact HF]. intros e He. apply nonconst_wr. exact He.
+      apply tr_composite_assign; [stab3|exact IHc|]. intros s [_ [_ [Hv _]]]. eapply Hv. exact Ed.
+    + intros P dc sc SP HV s HI HP. unfold bind.
+      pose proof (ro_same_layout (S f) dc sc s) as R. destruct (same_layout (S f) dc sc s) as [[ok|e] s1] eqn:E; cbn [fst snd] in R |- *; subst s1.
+      2:{ split; [exact HI|]. split; [apply K_refl|exact I]. }
+      destruct ok; [|exact (tr_rt_error P err_token dc (fun _ _ => True) s HI HP)].
+      assert (Et : fst (same_layout (S f) dc sc s) = Ok true) by (rewrite E; reflexivity).
+      destruct (same_layout_true f dc sc s Et) as [dx [sx [Edx [Esx [HVars HArrs]]]]].
+      destruct (HV s HP) as [dx0 [Edx0 Hrec]]. assert (dx0 = dx) by congruence. subst dx0.
+      set (P' := fun st0 => P st0 /\ Forall (fun nv : str * N => wr (snd nv) st0) (x_vars dx)
+                            /\ Forall (fun p : (str * N) * (str * N) => typair (snd (fst p)) (snd (snd p)) st0) (combine (x_vars dx) (x_vars sx))
+                            /\ Forall (fun p : (str * N) * (str * N) => arrpair (snd (fst p)) (snd (snd p)) st0) (combine (x_arrs dx) (x_arrs sx))).
+      assert (SP' : stable P') by (unfold P'; stab3).
+      assert (HP' : P' s).
+      { unfold P'. split; [exact HP|]. split; [|split].
+        - apply Forall_forall. intros [nm v] Hin. destruct (i_recvars s HI dc dx nm v Edx Hrec Hin) as [cl [Ecl Ho]]. exists cl. split; [exact Ecl|]. right. right. exact Ho.
+        - apply Forall_forall. intros [dv sv] Hin. destruct (HVars dv sv Hin) as [d [s0 [Ed [Es Hdt]]]]. exists d, s0. split; [exact Ed|]. split; [exact Es|].
+          apply dt_eq_namesagree; [exact Hdt| |]; intros Hk; eapply Inv_type_named; eauto.
+        - apply Forall_forall. intros [da sa] Hin. destruct (HArrs da sa Hin) as [a1 [a2 [E1 [E2 Hdt]]]]. exists a1, a2. split; [exact E1|]. split; [exact E2|exact Hdt]. }
+      assert (BODY : tr P' (zipM (fun (dv sv : str * N) => s0 <- get_cell (snd sv) ;; set_copy f (snd dv) (c_val s0)) (x_vars dx) (x_vars sx) ;;;
+                            zipM (fun (da sa : str * N) =>
+                                    a1 <- get_arr (snd da) ;; a2 <- get_arr (snd sa) ;;
+                                    (fix go (l1 l2 : list N) : M unit :=
+                                       match l1, l2 with
+                                       | e1 :: r1, e2 :: r2 => s0 <- get_cell e2 ;; set_copy f e1 (c_val s0) ;;; go r1 r2
+                                       | _, _ => ret Datatypes.tt
+                                       end) (a_elems a1) (a_elems a2)) (x_arrs dx) (x_arrs sx)) (fun _ _ => True)).
+      { eapply tr_bind; [exact SP'| |].
+        * apply tr_zipM_pairs; [exact SP'|]. intros dv sv Hin. eapply tr_bind; [exact SP'|apply tr_get_cell|]. intros cl.
+          apply IHs; [stab3|]. intros st0 [[_ [HW [HT _]]] [Hm [Hv [Hk Hn]]]]. split; [|split; [exact Hv|]].
+          -- rewrite Forall_forall in HW. apply (HW dv). eapply in_combine_l; eauto.
+          -- rewrite Forall_forall in HT. specialize (HT (dv, sv) Hin). cbn [fst snd] in HT. eapply typair_nfits; eauto.
+        * intros u. apply tr_zipM_pairs; [stab3|]. intros da sa Hin.
+          eapply tr_bind; [stab3|apply tr_get_arr|]. intros a1. eapply tr_bind; [stab3|apply tr_get_arr|]. intros a2.
+          apply tr_copy_go; [stab3|exact IHs| |].
+          -- intros st0 [[_ [HF _]] _]. eapply Forall_impl; [|exact HF]. intros e He. apply nonconst_wr. exact He.
+          -- intros st0 [[[[_ [_ [_ HA]]] _] [_ [HT1 HA1]]] [_ [HT2 HA2]]]. rewrite Forall_forall in HA. destruct (HA (da, sa) Hin) as [b1 [b2 [B1 [B2 Hdt]]]]. cbn [fst snd] in B1, B2.
+             unfold arris in *. assert (b1 = a1) by congruence. assert (b2 = a2) by congruence. subst b1 b2.
+             apply Forall_forall. intros [e1 e2] Hin2. cbn [fst snd]. rewrite Forall_forall in HT1, HT2.
+             eapply hastype_typair; [apply HT1; eapply in_combine_l; eauto|apply HT2; eapply in_combine_r; eauto|exact Hdt]. }
+      match type of BODY with tr _ ?b _ => assert (EQ : copy_var_data (S f) dc sc s = b s) end.
+      { cbn [copy_var_data]. unfold bind at 1, get_ctx at 1. rewrite Edx. cbv beta iota. unfold bind at 1, get_ctx at 1. rewrite Esx. cbv beta iota. reflexivity. }
+      rewrite EQ. exact (BODY s HI HP').
 Qed.
 
-Lemma tr_copy_array_data (P : st -> Prop) fuel d s0 : stable P -> tr P (copy_array_data fuel d s0) (fun _ _ => True).
+Lemma tr_copy_array_data (P : st -> Prop) fuel d s0 : stable P -> (forall s, P s -> arrpair d s0 s) -> tr P (copy_array_data fuel d s0) (fun _ _ => True).
 Proof.
-  intros SP. unfold copy_array_data. destruct (N.eqb d s0); [eapply tr_true; apply tr_ret|].
-  eapply tr_bind; [exact SP|apply tr_get_arr|]. intros a1. eapply tr_bind; [stab|apply tr_ro; apply ro_get_arr|]. intros a2.
-  apply tr_copy_go; [stab|apply (proj1 (set_copy_both fuel))|]. intros s [[_ HF] _]. eapply Forall_impl; [|exact HF]. intros e He. apply nonconst_wr. exact He.
+  intros SP HA. unfold copy_array_data. destruct (N.eqb d s0); [eapply tr_true; apply tr_ret|].
+  eapply tr_bind; [exact SP|apply tr_get_arr|]. intros a1. eapply tr_bind; [stab3|apply tr_get_arr|]. intros a2.
+  apply tr_copy_go; [stab3|apply (proj1 (set_copy_both fuel))| |].
+  - intros s [[_ [HF _]] _]. eapply Forall_impl; [|exact HF]. intros e He. apply nonconst_wr. exact He.
+  - intros s [[Hs [_ [HT1 HA1]]] [_ [HT2 HA2]]]. destruct (HA s Hs) as [b1 [b2 [B1 [B2 Hdt]]]].
+    unfold arris in *. assert (b1 = a1) by congruence. assert (b2 = a2) by congruence. subst b1 b2.
+    apply Forall_forall. intros [e1 e2] Hin2. cbn [fst snd]. rewrite Forall_forall in HT1, HT2.
+    eapply hastype_typair; [apply HT1; eapply in_combine_l; eauto|apply HT2; eapply in_combine_r; eauto|exact Hdt].
 Qed.
 
 Lemma tr_assign_val (P : st -> Prop) fuel dst v : stable P -> (forall s, P s -> wr dst s) -> tr P (assign_val fuel dst v) (fun _ _ => True).
 Proof.
   intros SP HV. unfold assign_val. eapply tr_bind; [exact SP|apply tr_get_cell|]. intros d.
-  assert (SET : forall p (Q : st -> Prop), (forall tn c, p <> PRec tn c) -> payload_kind p = dk (c_type d) -> (forall s, Q s -> P s /\ cellmeta dst d s) ->
+  assert (SET : forall p (Q : st -> Prop), (forall tn c, p <> PRec tn c) -> payload_kind p = dk (c_type d) -> named_ok p (c_type d) -> (forall s, Q s -> P s /\ cellmeta dst d s) ->
                 tr Q (set_cell_val dst p) (fun _ _ => True)).
-  { intros p Q Hp Hk HQ. apply tr_set_cell_val. intros s Hq. destruct (HQ s Hq) as [Hs Hm]. split; [apply (HV s Hs)|]. split; [apply valok_nonrec; exact Hp|eapply cellmeta_fits; eauto]. }
+  { intros p Q Hp Hk Hn HQ. apply tr_set_cell_val. intros s Hq. destruct (HQ s Hq) as [Hs Hm]. split; [apply (HV s Hs)|]. split; [apply valok_nonrec; exact Hp|eapply cellmeta_fits; eauto]. }
   destruct (dk (c_type d)) eqn:Ek; try apply tr_failm;
-    (destruct (r_val v) as [p|]; [|apply tr_failm]); destruct p; try apply tr_failm; try (apply SET; [intros; discriminate|reflexivity|intros s0 H0; tauto]).
-  - destruct (c_val d); try apply tr_failm. destruct (str_eqb tn0 tn); [apply SET; [intros; discriminate|reflexivity|intros s0 H0; tauto]|apply tr_failm].
-  - destruct (c_val d); try apply tr_failm. destruct (str_eqb tn0 tn); [apply SET; [intros; discriminate|reflexivity|intros s0 H0; tauto]|apply tr_failm].
+    (destruct (r_val v) as [p|]; [|apply tr_failm]); destruct p; try apply tr_failm; try (apply SET; [intros; discriminate|reflexivity|apply named_ok_prim; reflexivity|intros s0 H0; tauto]).
+  - destruct (c_val d) eqn:Ed; try apply tr_failm. destruct (str_eqb tn0 tn); [|apply tr_failm].
+    apply tr_set_cell_val. intros s [Hs [Hm [_ [_ Hn]]]]. split; [apply (HV s Hs)|]. split; [apply valok_nonrec; intros; discriminate|].
+    eapply cellmeta_fits; [exact Hm|cbn; congruence|]. intros t0 Ht. apply Hn. first [rewrite Ed|idtac]. cbn in *. exact Ht.
+  - destruct (c_val d) eqn:Ed; try apply tr_failm. destruct (str_eqb tn0 tn); [|apply tr_failm].
+    apply tr_set_cell_val. intros s [Hs [Hm [_ [_ Hn]]]]. split; [apply (HV s Hs)|]. split; [apply valok_nonrec; intros; discriminate|].
+    eapply cellmeta_fits; [exact Hm|cbn; congruence|]. intros t0 Ht. apply Hn. first [rewrite Ed|idtac]. cbn in *. exact Ht.
   - destruct (c_val d) as [| | | | | | | |tn0 dc] eqn:Ed; try apply tr_failm.
-    apply tr_composite_assign; [stab|]. apply (proj2 (set_copy_both fuel)); [stab|]. intros s [_ [_ [Hv _]]]. eapply Hv. first [exact Ed|reflexivity].
+    apply tr_composite_assign; [stab3|apply (proj2 (set_copy_both fuel))|]. intros s [_ [_ [Hv _]]]. eapply Hv. first [exact Ed|reflexivity].
 Qed.
 
 Lemma tr_store_tree : forall f (P : st -> Prop) id t, stable P -> (forall s, P s -> wr id s) -> tr P (store_tree f id t) (fun _ _ => True).
 Proof.
   induction f as [|f IH]; intros P id t SP HV; cbn [store_tree]; [apply tr_failm|].
   eapply tr_bind; [exact SP|apply tr_get_cell|]. intros cl.
-  assert (SET : forall p, (forall tn c, p <> PRec tn c) -> payload_kind p = payload_kind (c_val cl) ->
-                tr (fun s => P s /\ cellmeta id cl s /\ valok (c_val cl) s /\ payload_kind (c_val cl) = dk (c_type cl)) (set_cell_val id p) (fun _ _ => True)).
-  { intros p Hp Hk. apply tr_set_cell_val. intros s [Hs [Hm [_ Hk']]]. split; [apply (HV s Hs)|]. split; [apply valok_nonrec; exact Hp|eapply cellmeta_fits; [exact Hm|congruence]]. }
-  destruct t; destruct (c_val cl) as [| | | | | | | |tn0 rc] eqn:Ed; try apply tr_failm; try (apply SET; [intros; discriminate|first [rewrite Ed|idtac]; reflexivity]); try (eapply tr_true; apply tr_ret).
-  eapply tr_bind; [stab|apply tr_get_ctx|]. intros cx.
-  destruct (x_isrec cx) eqn:Hr.
-  2:{ apply tr_false. intros s [[_ [_ [Hv _]]] [Hk _]]. pose proof (ctxkind_unique _ _ _ _ Hk (Hv _ _ ltac:(first [exact Ed|reflexivity]))) as X. congruence. }
-  eapply tr_bind; [stab| |].
-  - apply tr_zipM; [stab|]. intros nv t' Hin. apply IH; [stab|]. intros s [_ [_ [HF _]]]. specialize (HF Hr). rewrite Forall_forall in HF. apply (HF nv Hin).
-  - intros u. apply tr_zipM; [stab|]. intros na ts Hin. eapply tr_bind; [stab|apply tr_get_arr|]. intros a.
-    apply tr_zipM; [stab|]. intros e t' He. apply IH; [stab|]. intros s [_ HF]. rewrite Forall_forall in HF. apply nonconst_wr. apply (HF e He).
+  assert (SET : forall p, (forall tn c, p <> PRec tn c) -> payload_kind p = payload_kind (c_val cl) -> pname p = pname (c_val cl) ->
+                tr (fun s => P s /\ cellmeta id cl s /\ valok (c_val cl) s /\ payload_kind (c_val cl) = dk (c_type cl) /\ named_ok (c_val cl) (c_type cl)) (set_cell_val id p) (fun _ _ => True)).
+  { intros p Hp Hk Hpn. apply tr_set_cell_val. intros s [Hs [Hm [_ [Hk' Hn']]]]. split; [apply (HV s Hs)|]. split; [apply valok_nonrec; exact Hp|].
+    eapply cellmeta_fits; [exact Hm|congruence|eapply named_ok_pname; eauto]. }
+  destruct t; destruct (c_val cl) as [| | | | | | | |tn0 rc] eqn:Ed; try apply tr_failm;
+    try (apply SET; [intros; discriminate|first [rewrite Ed|idtac]; reflexivity|first [rewrite Ed|idtac]; reflexivity]); try (eapply tr_true; apply tr_ret).
+  - destruct (str_eqb tn tn0); [|apply tr_failm]. apply SET; [intros; discriminate|first [rewrite Ed|idtac]; reflexivity|first [rewrite Ed|idtac]; reflexivity].
+  - eapply tr_bind; [stab3|apply tr_get_ctx|]. intros cx.
+    destruct (x_isrec cx) eqn:Hr.
+    2:{ apply tr_false. intros s [[_ [_ [Hv _]]] [Hk _]]. pose proof (ctxkind_unique _ _ _ _ Hk (Hv _ _ ltac:(first [exact Ed|reflexivity]))) as X. congruence. }
+    eapply tr_bind; [stab3| |].
+    + apply tr_zipM; [stab3|]. intros nv t' Hin. apply IH; [stab3|]. intros s [_ [_ [HF _]]]. specialize (HF Hr). rewrite Forall_forall in HF. apply (HF nv Hin).
+    + intros u. apply tr_zipM; [stab3|]. intros na ts Hin. eapply tr_bind; [stab3|apply tr_get_arr|]. intros a.
+      apply tr_zipM; [stab3|]. intros e t' He. apply IH; [stab3|]. intros s [_ [HF _]]. rewrite Forall_forall in HF. apply nonconst_wr. apply (HF e He).
 Qed.
+
 
 (* ------------------------------------------------------------------ computations that leave the heap alone *)
 Definition hn {A} (m : M A) : Prop := forall s, heap_same s (snd (m s)).
